@@ -220,7 +220,7 @@ def normalise(segs):
             if out and isinstance(out[-1], Lit):
                 out[-1] = Lit(out[-1].b + s.b)
                 continue
-        elif isinstance(s, Enc) and len(s.args) == 1 and not _contains_sym(s.args[0]) and s.codec[0] not in ("ent", "nent", "run", "carr", "larr"):
+        elif isinstance(s, Enc) and len(s.args) == 1 and not _contains_sym(s.args[0]) and s.codec[0] in ("be", "le", "bool", "uv", "sv", "clen") and s.args[0] is not None:
             from spec import kafka
             try:
                 s = Lit(kafka.concrete(s.codec, s.args[0]))
@@ -388,6 +388,13 @@ class Ctx:
         if self._solver is None:
             self._solver = z3.Solver()
             self._pushed = 0
+            self._nlit = -1
+        from . import opaque
+        nlit = sum(len(r) for r in opaque._literals.values())
+        if nlit != self._nlit:
+            for f in opaque.literal_facts():
+                self._solver.add(f)
+            self._nlit = nlit
         while self._pushed < len(self.pc):
             self._solver.add(self.pc[self._pushed])
             self._pushed += 1
@@ -503,7 +510,7 @@ def explore(run, max_paths=4096, prune=True):
 
 
 # --------------------------------------------------------------------------- equality
-def sym_eq(a, b):
+def sym_eq(a, b, ctx=None):
     """Python `a == b` for symbolic/concrete operands -> python bool or z3 Bool."""
     import dataclasses
     if not isinstance(a, Sym) and not isinstance(b, Sym):
@@ -514,10 +521,10 @@ def sym_eq(a, b):
         if b is None:
             return a.is_none
         if isinstance(b, SOpt):
-            inner = sym_eq(a.val, b.val)
+            inner = sym_eq(a.val, b.val, ctx)
             return z3.Or(z3.And(a.is_none, b.is_none),
                          z3.And(z3.Not(a.is_none), z3.Not(b.is_none), tobool(inner)))
-        return z3.And(z3.Not(a.is_none), tobool(sym_eq(a.val, b)))
+        return z3.And(z3.Not(a.is_none), tobool(sym_eq(a.val, b, ctx)))
     if a is None or b is None:
         return False if (a is None) != (b is None) else True
     if isinstance(b, Sym) and not isinstance(a, Sym):
@@ -537,6 +544,8 @@ def sym_eq(a, b):
         return False
     if isinstance(a, SBytes):
         if isinstance(b, (bytes, SBytes)):
+            if ctx is not None:
+                return equalise(ctx, a.segs, as_bytes(b))
             return segs_eq(a.segs, as_bytes(b))
         return False
     if isinstance(a, SOpaque):
@@ -548,15 +557,15 @@ def sym_eq(a, b):
         if isinstance(b, SRec):
             if a.cls is not b.cls:
                 return False
-            return z3.And(*[tobool(sym_eq(a.fields[k], b.fields[k])) for k in a.fields]) if a.fields else True
+            return z3.And(*[tobool(sym_eq(a.fields[k], b.fields[k], ctx)) for k in a.fields]) if a.fields else True
         if type(b) is not a.cls:
             return False
-        return z3.And(*[tobool(sym_eq(v, getattr(b, k))) for k, v in a.fields.items()]) if a.fields else True
+        return z3.And(*[tobool(sym_eq(v, getattr(b, k), ctx)) for k, v in a.fields.items()]) if a.fields else True
     if isinstance(a, SSeq):
         if isinstance(b, tuple):
             if len(b) == 0:
                 return a.n == 0
-            return z3.And(a.n == len(b), *[tobool(sym_eq(a.item(i), x)) for i, x in enumerate(b)])
+            return z3.And(a.n == len(b), *[tobool(sym_eq(a.item(i), x, ctx)) for i, x in enumerate(b)])
         if isinstance(b, SSeq):
             if a is b:
                 return True
@@ -620,6 +629,13 @@ def segs_eq(a, b):
         if isinstance(x, Raw) and isinstance(y, Raw):
             conds.append(x.t == y.t); i += 1; j += 1
             continue
+        if (isinstance(x, Raw) and isinstance(y, Lit) and i == len(a) - 1 and j == len(b) - 1) or \
+                (isinstance(x, Lit) and isinstance(y, Raw) and i == len(a) - 1 and j == len(b) - 1):
+            from . import opaque
+            r, l = (x, y) if isinstance(x, Raw) else (y, x)
+            conds.append(z3.And(blen(r.t) == len(l.b), r.t == opaque.literal("bytes", l.b)))
+            i += 1; j += 1
+            continue
         if isinstance(x, Enc) and isinstance(y, Enc) and x.codec == y.codec and len(x.args) == len(y.args):
             for p, q in zip(x.args, y.args):
                 conds.append(tobool(sym_eq(p, q)))
@@ -641,3 +657,70 @@ def segs_eq(a, b):
 
 class Mismatch(Exception):
     pass
+
+
+def equalise(ctx, a, b):
+    """z3 condition for equality of two segment lists modulo the spec's unfoldings.
+    Raises Mismatch when the structures cannot be aligned."""
+    from spec import kafka
+    a, b = list(normalise(a)), list(normalise(b))
+    conds = []
+    guard = 0
+    while a and b:
+        guard += 1
+        if guard > 400:
+            raise Undecided("equalise did not converge")
+        x, y = a[0], b[0]
+        if isinstance(x, Lit) and isinstance(y, Lit):
+            n = min(len(x.b), len(y.b))
+            if x.b[:n] != y.b[:n]:
+                return False
+            if len(x.b) > n:
+                a[0] = Lit(x.b[n:]); b.pop(0)
+            elif len(y.b) > n:
+                b[0] = Lit(y.b[n:]); a.pop(0)
+            else:
+                a.pop(0); b.pop(0)
+            continue
+        last = len(a) == 1 and len(b) == 1
+        try:
+            if (isinstance(x, Raw) and isinstance(y, Lit) or isinstance(x, Lit) and isinstance(y, Raw)) and not last:
+                raise Mismatch("raw against literal inside a longer list")
+            c = segs_eq([x], [y])
+            if c is False:
+                return False
+            if c is not True:
+                conds.append(c)
+            a.pop(0); b.pop(0)
+            continue
+        except Mismatch:
+            pass
+        if isinstance(x, Lit) and len(x.b) > 1 and isinstance(y, Byte):
+            a[0:1] = [Lit(x.b[:1]), Lit(x.b[1:])]
+            continue
+        if isinstance(y, Lit) and len(y.b) > 1 and isinstance(x, Byte):
+            b[0:1] = [Lit(y.b[:1]), Lit(y.b[1:])]
+            continue
+        for side, s in ((a, x), (b, y)):
+            if isinstance(s, Enc) and s.codec[0] not in ("le", "bool", "f64") and not (
+                    s.codec[0] == "be" and not isinstance(s.args[0], int)):
+                try:
+                    side[0:1] = list(normalise(kafka.unfold(ctx, s)))
+                    break
+                except Undecided:
+                    continue
+        else:
+            raise Mismatch(f"cannot align {x!r} with {y!r}")
+    rest = a or b
+    if rest:
+        ln = total_len(rest)
+        if isinstance(ln, int):
+            if ln:
+                return False
+        else:
+            if ctx.entails(zint(ln) > 0):
+                return False
+            conds.append(zint(ln) == 0)
+    if not conds:
+        return True
+    return z3.And(*[tobool(c) for c in conds])
